@@ -267,6 +267,14 @@ def check(run):
                 run.instance(r3, "call path of %s" % ent.dname[:120], ent.where(), ok=not bad, detail={"functions": len(fs)})
                 for f, i, why in bad:
                     run.violation(r3, "%s|%s" % (site_key(f), why), "%s in %s on the path from the method call to the error handler: a throwing handler's exception would not reach the caller" % (why, f.dname[:160]), i.where())
+    from .. import crules
+    r4, r5 = "C02-order", "C02-cells"
+    run.rule(r4, "the 'more specific' predicate that decides between a definition and the ambiguity cell is the documented table", floor=3)
+    run.rule(r5, "an empty best set installs the not-implemented cell, a non-unique one the ambiguity cell, never a definition", floor=12)
+    for nd in variants:
+        ast, _ = crules.unit(run, ndebug=nd)
+        crules.order_rules(run, r4, None, ast)
+        crules.cells_rules(run, r5, None, None, ast)
     must = ["yorel::yomm2::method<>::not_implemented_handler", "yorel::yomm2::method<>::ambiguous_handler",
             "checked_perfect_hash<>::hash_type_id", "fast_perfect_hash<>::hash_initialize", "compiler<>::augment_classes",
             "compiler<>::augment_methods", "virtual_ptr<>::final", "backward_compatible_error_handler<>::default_error_handler"]
